@@ -15,20 +15,20 @@ VIEW View
 """
 
 
-def cfg(nkeys, nvals, leaf, internal, spec='Spec', invariants=(), props=(), dump=False, dev=(), firstkey=1):
+def cfg(nkeys, nvals, leaf, internal, spec='Spec', invariants=(), props=(), dump=False, dev=(), firstkey=1, dumpop='Dump'):
     extra = ''.join('INVARIANT %s\n' % i for i in invariants)
     extra += ''.join('PROPERTY %s\n' % p for p in props)
     if dump:
-        extra += 'ACTION_CONSTRAINT Dump\n'
+        extra += 'ACTION_CONSTRAINT %s\n' % dumpop
     return CFG % dict(spec=spec, keys=','.join(str(i) for i in range(firstkey, firstkey + nkeys)),
                       vals=','.join(str(i) for i in range(1, nvals + 1)), leaf=leaf,
                       internal=internal, extra=extra, dev=','.join('"%s"' % d for d in dev))
 
 
-def dump_file(nkeys, nvals, leaf, internal, spec='Spec', module='BTreeImpl'):
+def dump_file(nkeys, nvals, leaf, internal, spec='Spec', module='BTreeImpl', dev=(), dumpop='Dump'):
     """path of a JSON file {payloads, summary} holding every transition TLC
     explored for this instance"""
-    c = cfg(nkeys, nvals, leaf, internal, spec=spec, dump=True)
+    c = cfg(nkeys, nvals, leaf, internal, spec=spec, dump=True, dev=dev, dumpop=dumpop)
     payloads, summ = tlc.cached_payloads(module, c, 'TR', workers=1, timeout=7200)
     key = tlc.spec_hash(module, c, 'TR', None, None, None)
     fn = os.path.join(tlc.CACHE, 'dumps', '%s-%s.json' % (module, key))
